@@ -327,7 +327,9 @@ def g_km(draw):
     if gen.boolean(draw):
         Q[:, 0] = -Q[:, 0]  # a reflection
     c.update(Q=Q, s=float(10.0 ** draw(gen.st.floats(-3, 3))), t=scale * gen.choice(draw, [0.0, 1.0, -50.0, 1e3]) * np.ones(F),
-             K=gen.integer(draw, 1, 5))
+             K=gen.integer(draw, 1, 5), thr=gen.choice(draw, [None, None, 1e-1, 1e-2, 0.3]))
+    if c["thr"] is not None:
+        c["K"] = 12
     return c
 
 
@@ -347,8 +349,17 @@ def c_km(ctx, case):
         cent = new
     X2 = s * (X @ Q) + t[None, :]
     init2 = s * (case["init"] @ Q) + t[None, :]
-    m1 = KMeansMachine(k, init_method=np.array(case["init"], copy=True), max_iter=K, convergence_threshold=None).fit(X)
-    m2 = KMeansMachine(k, init_method=init2, max_iter=K, convergence_threshold=None).fit(X2)
+    thr = case.get("thr")
+    m1 = KMeansMachine(k, init_method=np.array(case["init"], copy=True), max_iter=K, convergence_threshold=thr).fit(X)
+    if thr:
+        # the relative-change stop test is a ratio of squared distances: invariant under s, Q, t (unlike the GMM's);
+        # discard cases whose stop decision is not robust to a 1e-6 change of the threshold
+        for f in (1 - 1e-6, 1 + 1e-6):
+            mm = KMeansMachine(k, init_method=np.array(case["init"], copy=True), max_iter=K, convergence_threshold=thr * f).fit(X)
+            if not np.array_equal(mm.centroids_, m1.centroids_):
+                ctx.discard("stop decision within 1e-6 of the threshold")
+        ctx.event("with-threshold")
+    m2 = KMeansMachine(k, init_method=init2, max_iter=K, convergence_threshold=thr).fit(X2)
     spread = float(np.abs(X - X.mean(axis=0)).max()) + 1e-300
     kap = float(np.abs(t).max() / (s * spread)) if s > 0 else 0.0
     rotated = not np.allclose(Q, np.eye(len(Q)))
